@@ -32,7 +32,13 @@ func (s *demoState) WriteOperand(o *insts.Operand, lane int, v uint64) {
 	s.regs[o][lane] = v
 }
 func (s *demoState) ReadOperandBytes(o *insts.Operand, lane int, n int) []byte { return make([]byte, n) }
-func (s *demoState) WriteOperandBytes(o *insts.Operand, lane int, d []byte)    {}
+func (s *demoState) WriteOperandBytes(o *insts.Operand, lane int, d []byte) {
+	var v uint64
+	for i := 0; i < len(d) && i < 8; i++ {
+		v |= uint64(d[i]) << (8 * uint(i))
+	}
+	s.WriteOperand(o, lane, v)
+}
 func (s *demoState) EXEC() uint64                                               { return s.exec }
 func (s *demoState) SetEXEC(v uint64)                                           { s.exec = v }
 func (s *demoState) VCC() uint64                                                { return s.vcc }
@@ -106,5 +112,23 @@ func TestC06DivFmasF64UsesTheLanesOwnVCCBit(t *testing.T) {
 	l1 := math.Float64frombits(s.ReadOperand(s.inst.Dst, 1))
 	if l0 != l1 {
 		t.Errorf("identical inputs and VCC bits in lanes 0 and 1 give %g and %g", l0, l1)
+	}
+}
+
+func TestC03DsReadB64AddsItsOffset(t *testing.T) {
+	s := newDemo(insts.DS, 118)
+	s.inst.Addr = insts.NewVRegOperand(0, 0, 1)
+	s.inst.Dst = insts.NewVRegOperand(2, 2, 2)
+	s.inst.Offset0 = 8
+	s.WriteOperand(s.inst.Addr, 0, 16)
+	alu := NewALU(nil)
+	lds := make([]byte, 64)
+	for i := range lds {
+		lds[i] = byte(i)
+	}
+	alu.SetLDS(lds)
+	alu.Run(s)
+	if got := s.ReadOperand(s.inst.Dst, 0); got != 0x1f1e1d1c1b1a1918 {
+		t.Errorf("ds_read_b64 v[2:3], v0 offset:8 with v0 = 16 read %#x, LDS bytes 24..31 are 0x1f1e1d1c1b1a1918", got)
 	}
 }
